@@ -857,6 +857,20 @@ macro_rules! c08_laws {
                 if cxx != Ordering::Equal || !exx {
                     $ctx.fail("C08.reflexive", c08_feats($ty, "reflexive", texts), format!("{}: value not equal to itself", $ty));
                 }
+                // the operator and helper methods of the same traits (they can be overridden one by one)
+                // (max/min are bound to a variable first: with a raw-pointer type expected, inference would
+                // pick `*const T: Ord`, which orders by ADDRESS)
+                if let Ok((lt, le, gt, ge, ne, mx, mn)) = crate::ctx::guard(|| (x < y, x <= y, x > y, x >= y, x != y, { let m = Ord::max(x, y); std::ptr::eq(m, x) }, { let m = Ord::min(x, y); std::ptr::eq(m, x) })) {
+                    if lt != (c == Ordering::Less) || le != (c != Ordering::Greater) || gt != (c == Ordering::Greater) || ge != (c != Ordering::Less) || ne == eq {
+                        $ctx.fail("C08.partial", c08_feats($ty, "operators < <= > >= != agree with cmp/==", texts), format!("{}: on ({}, {}) cmp = {:?}, == {} but < {} <= {} > {} >= {} != {}", $ty, show(texts[0]), show(texts[1]), c, eq, lt, le, gt, ge, ne));
+                    }
+                    // (only for unequal values: which of two equal values is returned is nobody's business)
+                    let want_max_is_x = c == Ordering::Greater;
+                    let want_min_is_x = c == Ordering::Less;
+                    if c != Ordering::Equal && !std::ptr::eq(x, y) && (mx != want_max_is_x || mn != want_min_is_x) {
+                        $ctx.fail("C08.partial", c08_feats($ty, "max/min agree with cmp", texts), format!("{}: on ({}, {}) cmp = {:?} but max picks the {} and min the {} argument", $ty, show(texts[0]), show(texts[1]), c, if mx { "first" } else { "second" }, if mn { "first" } else { "second" }));
+                    }
+                }
                 $ctx.stratum(if eq { "law:equal-pair" } else { "law:unequal-pair" });
                 (eq, c, hx)
             }
